@@ -95,6 +95,8 @@ impl AtomicEpoch {
     /// Loads a value from the atomic epoch.
     #[inline]
     pub(crate) fn load(&self, ord: Ordering) -> Epoch {
+        vp!(EPOCH_LOAD);
+        vp_after!(EPOCH_LOADED);
         Epoch {
             data: self.data.load(ord),
         }
@@ -103,6 +105,7 @@ impl AtomicEpoch {
     /// Stores a value into the atomic epoch.
     #[inline]
     pub(crate) fn store(&self, epoch: Epoch, ord: Ordering) {
+        vp!(EPOCH_STORE);
         self.data.store(epoch.data, ord);
     }
 
@@ -127,6 +130,7 @@ impl AtomicEpoch {
         success: Ordering,
         failure: Ordering,
     ) -> Result<Epoch, Epoch> {
+        vp!(EPOCH_CAS);
         match self
             .data
             .compare_exchange(current.data, new.data, success, failure)
